@@ -71,7 +71,8 @@ def symbolic(fn, split_roles, what):
             break
         if isinstance(st, ast.Expr) and isinstance(st.value, ast.Call):
             f = _src(st.value.func)
-            if f in ("check_is_fitted", "self._check_sensitive_features_in_X", "self._create_lookup"):
+            if f in ("check_is_fitted", "self._check_sensitive_features_in_X", "self._create_lookup") \
+                    or f.split(".")[0] in ("logger", "logging", "warnings"):
                 continue
             _bad(f"{what}: unexpected call statement `{_src(st)[:80]}`")
         if isinstance(st, ast.If):
